@@ -423,4 +423,3 @@ func TestVerifC19V2(t *testing.T) {
 		t.Fatal("no case executed")
 	}
 }
-
